@@ -163,7 +163,7 @@ pub fn to_script(c: &SweepCase, k: u64) -> Script {
         }
         ops.push(Op::Probe);
     }
-    Script { mode: Mode::Safe, layout_seed: k.wrapping_mul(0x9E37_79B9_7F4A_7C15), ops, cleanup: vec![0] }
+    Script { mode: Mode::Safe, layout_seed: k.wrapping_mul(0x9E37_79B9_7F4A_7C15), ops, cleanup: vec![0], arena_seed: None }
 }
 
 // ---- C11: fault enumeration ------------------------------------------------------
